@@ -77,8 +77,17 @@ static bool make_problem(Rng& r, Problem& P) {
 static string paving_token(const CovSolverData& d, int n, int m) {
   vector<string> out;
   for (size_t i = 0; i < d.nb_inner(); i++) out.push_back("I~" + tok(d.inner(i)));
-  if (m > 0) for (size_t i = 0; i < d.nb_solution(); i++) out.push_back("S~" + tok(d.solution(i)) + "~" + tok(d.unicity(i)));
-  for (size_t i = 0; i < d.nb_boundary(); i++) out.push_back("B~" + tok(d.boundary(i)));
+  if (m > 0) for (size_t i = 0; i < d.nb_solution(); i++) {
+    // indices of the variables (the other coordinates are the parameters of the solution)
+    string vs; if (m == n) { for (int k = 0; k < n; k++) { if (k) vs += "."; vs += to_string(k); } }
+    else { const VarSet& v = d.solution_varset(i); for (int k = 0; k < v.nb_var; k++) { if (k) vs += "."; vs += to_string(v.var(k)); } }
+    out.push_back("S~" + tok(d.solution(i)) + "~" + tok(d.unicity(i)) + "~" + vs); }
+  for (size_t i = 0; i < d.nb_boundary(); i++) {
+    if (m == 0) { out.push_back("B~" + tok(d.boundary(i))); continue; }
+    // a boundary box of a system with equations is also a Newton existence box: same record as a solution (unicity box = itself)
+    string vs; if (m == n) { for (int k = 0; k < n; k++) { if (k) vs += "."; vs += to_string(k); } }
+    else { const VarSet& v = d.boundary_varset(i); for (int k = 0; k < v.nb_var; k++) { if (k) vs += "."; vs += to_string(v.var(k)); } }
+    out.push_back("S~" + tok(d.boundary(i)) + "~" + tok(d.boundary(i)) + "~" + vs); }
   for (size_t i = 0; i < d.nb_unknown(); i++) out.push_back("U~" + tok(d.unknown(i)));
   for (size_t i = 0; i < d.nb_pending(); i++) out.push_back("D~" + tok(d.pending(i)));
   if (out.empty()) return "-";
